@@ -12,11 +12,13 @@ Section Blend.
 
   Definition count (p : T -> bool) (l : list T) : nat := List.length (filter p l).
 
-  (* lines 600-619: slices for pairs 0..m-1, as (start, stop) index pairs *)
+  (* lines 600-619: slices for pairs 0..m-1, as (start, stop) index pairs; a control point on a station belongs to the pair that ends
+     there, on both sides (fix: the right side counted cp < s, which left such a point to the next pair while the interpolator below
+     reads the columns of the pair that ends there) *)
   Fixpoint slices_right (cps : list T) (stations : list T) (prev : nat) : list (nat * nat) :=
     match stations with
     | [] => []
-    | s :: r => let nl := count (fun c => c <? s) cps in (prev, nl) :: slices_right cps r nl
+    | s :: r => let nl := count (fun c => c <=? s) cps in (prev, nl) :: slices_right cps r nl
     end.
   Fixpoint slices_left (cps : list T) (stations : list T) (prev : nat) : list (nat * nat) :=
     match stations with
